@@ -112,5 +112,14 @@ PROPS["C09"] = differential("C09", "Tab-free documents are compared with their b
 PROPS["C14"] = differential("C14", "(a) CR-free documents vs their CRLF and CR forms on the rendering with copied line endings mapped back; (b) blank-line prefixes shift offsets and lines by exactly the prefix and change nothing else; (c) appending a final newline does not change the safe-mode rendering (modulo whitespace before a closing block tag).")
 PROPS["C16"] = differential("C16", "Every root block's Source is re-parsed alone with the document's reference map and must give one root with an identical tree; the stated exception (paragraph after a split-off definition) is skipped, the analogous setext-heading class is a listed known finding.")
 
+PROPS["C06"] = {
+    "modules": [],
+    "level": "other",
+    "design_ref": "DESIGN.md §6 C06, §7",
+    "technique": "Lean specification of abstract documents (Spec.Doc: canonical serialiser with choice streams + HTML denotation) driving a seeded generator; the implementation's Parse+RenderHTML on ser(choices, d) is compared with denote(d) as HTML (token-canonical) modulo inter-block line feeds; two named corollaries on dedicated generators; top-level shrinking",
+    "text": "Spec.Doc (lean/CM/Spec/Doc.lean) defines abstract documents over all constructs named in the property, their canonical serialisation under a stream of choices, and the HTML they denote; Spec.DocGen generates documents with nesting depth 1-4 obeying the side conditions of DESIGN.md §7. For each generated (d, choices, LF|CRLF) the implementation parses ser and renders with the default renderer; the result must equal denote(d) after both are re-serialised token by token (so that &#42; and * compare equal) and runs of >= 2 line feeds are dropped. The corollaries 'every punctuation escaped => literal text' and 'code block contents verbatim' are checked on their own generators. No theorem relates the parser model to Spec.Doc yet (parser not in Lean at this commit), hence 'other'.",
+    "note": "Trusts my transcription of the CommonMark HTML mapping in Spec.denoteDoc and of the canonical style in Spec.ser, and golang.org/x/net/html's tokenizer for the token-canonical comparison. Tabs as indentation and link titles spanning lines are not yet among the serialiser's choices.",
+}
+
 NOT_APPLICABLE = {
 }
